@@ -146,6 +146,12 @@ MANIFEST["level_note"] += (" Suite `signed` (oracle-free, no model): correctly s
                            "size limits, both transports; requirement: two responses, never a panic.")
 
 
+# pkg-sproof: the signing TSIG modes (finish_with_mac in response mode) are now under a theorem, append-only
+CHECK["theorems"] = list(CHECK["theorems"]) + ['c01_no_panic_tsig']
+MANIFEST["level_note"] += (" `c01_no_panic_tsig` (Proofs/SignFinishP.v, SignSerP.v, SignTopP.v): the extended composed model never "
+                           "panics for EVERY verifier (signed BADTIME responses; verified requests answered NOTIMP / REFUSED / SERVFAIL / "
+                           "FORMERR with a signed TSIG record) and every hmac whose output has the algorithm's output size (the only fact about HMAC used).")
+
 
 # ---- fourth suite: the server WITH response rate limiting configured (src/server/rrl.rs runs inside handle_message, and the
 # composed model has no RRL): C26's single-stream and mixed histories - every request kind incl. BADVERS with and without a
